@@ -13,6 +13,13 @@
 #include <unifex/scheduler_concepts.hpp>
 #include <unifex/sender_concepts.hpp>
 #include <unifex/trampoline_scheduler.hpp>
+#ifdef USE_INLINE
+// -DUSE_INLINE: the same harness on the REAL inline_scheduler (every item completes inside its own
+// start(); <maxDepth> is ignored; reference model Proto/InlineSched.lean).  Extra monitors: a start()
+// that returned without having completed its item; an item completed at a nesting different from its
+// depth in the tree.
+#include <unifex/inline_scheduler.hpp>
+#endif
 
 #include <cstdio>
 #include <cstdlib>
@@ -32,7 +39,11 @@ struct Rec {
   template <class E> void set_error(E&&) && noexcept { std::abort(); }
   friend unifex::inplace_stop_token tag_invoke(unifex::tag_t<unifex::get_stop_token>, const Rec& r) noexcept;
 };
+#ifdef USE_INLINE
+struct Sched : unifex::inline_scheduler { explicit Sched(size_t) {} };
+#else
 using Sched = unifex::trampoline_scheduler;
+#endif
 using Op = unifex::connect_result_t<decltype(std::declval<Sched&>().schedule()), Rec>;
 struct Holder { unifex::manual_lifetime<Op> op; bool live = false; ~Holder() { if (live) op.destruct(); } };
 
@@ -60,7 +71,12 @@ struct Env {
     if (n->stop_here) src.request_stop();
     for (const Node& k : n->kids) {
       start(&k);
-      if (!ran[k.id]) { snprintf(b, sizeof b, " d%d", k.id); log += b; }
+      if (!ran[k.id]) {
+        snprintf(b, sizeof b, " d%d", k.id); log += b;
+#ifdef USE_INLINE
+        monitors.push_back("start() of item " + std::to_string(k.id) + " returned without having completed it inline");
+#endif
+      }
     }
     --nest;
   }
@@ -96,7 +112,9 @@ int main() {
     e.start(&root);
     // the outermost start() has returned
     for (int i = 0; i < nid; ++i) if (e.ran[i] != 1) e.monitors.push_back("item " + std::to_string(i) + " ran " + std::to_string(e.ran[i]) + " times when the outermost start() returned");
+#ifndef USE_INLINE
     if ((size_t)e.max_nest > (md > 1 ? md : 1)) e.monitors.push_back("nesting " + std::to_string(e.max_nest) + " exceeds the maximum depth");
+#endif
     for (auto& m : e.monitors) printf("MONITOR %s\n", m.c_str());
     printf("%s\n", e.log.c_str());
   }
